@@ -12,6 +12,8 @@ pub struct Shrinker<'a> {
     pub class: String,
     pub execs: usize,
     pub max_execs: usize,
+    /// wall-clock cap for one minimisation (a run with a 32 MiB fill or a 100 000-draw stall costs a second per execution)
+    pub started: std::time::Instant,
 }
 
 impl<'a> Shrinker<'a> {
@@ -25,7 +27,7 @@ impl<'a> Shrinker<'a> {
     }
 
     fn budget(&self) -> bool {
-        self.execs < self.max_execs
+        self.execs < self.max_execs && self.started.elapsed().as_secs() < 90
     }
 
     /// interleaved-tasks runs: shorter schedule, fewer tasks, ops, calls and planned responses
